@@ -275,6 +275,51 @@ def emission_work(arg):
     return tuple(map(str, arg)), viols
 
 
+def traffic_work(arg):
+    """'each side emits a datagram at least once per keep-alive interval plus one send tick, and neither side times out' on a
+    healthy link that is NOT idle: application traffic in one direction only, in both, or alternating; denser and sparser than
+    the keep-alive interval; unretried and guaranteed; single datagram and fragmented.  6.5 s per case (> every timeout)."""
+    who, period, size, retry, frame, ka = arg
+    viols = {}
+    wit = {"part": "traffic", "arg": list(arg)}
+
+    def flag(oracle, sig, msg):
+        viols.setdefault((oracle, sig), [0, wit, msg])[0] += 1
+    from mpgameserver.connection import RetryMode
+    w = World(dt=frame, autoconnect=False, start_time=1024.0, server_cfg={"setKeepAliveInterval": ka})
+    try:
+        ce = w.client_connect(0, before_connect=lambda cl: cl.setKeepAliveInterval(ka))
+        w.run_until_connected(limit=int(3.0 / frame))
+        w.run(int(0.3 / frame))
+        t0 = w.tickno
+        n = 0
+        for t in range(int(6.5 / frame)):
+            if t % period == 0:
+                n += 1
+                data = (b"%06d" % n) * max(1, size // 6)
+                senders = {"c": "c", "s": "s", "both": "cs", "alt": "c" if n % 2 else "s"}[who]
+                if "c" in senders and ce.client.connected():
+                    ce.client.send(data, retry=(RetryMode.RETRY_ON_TIMEOUT if retry else RetryMode.NONE).value)
+                sc = w.server_conn(0)
+                if "s" in senders and sc is not None:
+                    sc.send(data, retry=RetryMode.RETRY_ON_TIMEOUT if retry else RetryMode.NONE)
+            w.tick()
+        g = gaps(w, t0)
+        for side in ("c", "s"):
+            bound = ka + max(frame, send_tick(frame)) + frame + EPS
+            if not g[side] or max(g[side]) > bound:
+                flag("keep-alive", "an endpoint of a live link carrying application traffic stays silent for longer than its keep-alive interval plus a send tick",
+                     "%s: longest gap %s, keep-alive %.2f; traffic: sender(s) %s, one %d-byte %s message every %d frame(s) of %.4f s" % (
+                         "client" if side == "c" else "server", ("%.4f s" % max(g[side])) if g[side] else "(nothing sent at all)", ka, who, size,
+                         "guaranteed" if retry else "unretried", period, frame))
+        if not ce.client.connected() or w.clients[0].addr not in w.ctxt.connections:
+            flag("idle", "a live link carrying application traffic goes down", "client %s, server side %s; traffic: sender(s) %s every %d frame(s), %d bytes" % (
+                w.clients[0].conn.status if w.clients[0].conn else None, "present" if w.clients[0].addr in w.ctxt.connections else "gone", who, period, size))
+    finally:
+        w.close()
+    return tuple(map(str, arg)), viols
+
+
 def connect_work(arg):
     timeout, with_cb, frame, set_when = arg
     viols = {}
@@ -600,6 +645,10 @@ def run(tier, seed):
                (0.05, 6.0, 0.05, 30.0, 1.0 / 64, ("s2c", 3.0)), (2.0, 1.0, 0.05, 30.0, 1.0 / 64, None)]
     for r in core.pmap("checks.c12", "emission_work", em_jobs):
         fold(r[1])
+    tr_jobs = [(who, period, size, retry, fr, ka) for who in ("c", "s", "both", "alt") for period in (1, 2, 5, 9, 40) for size, retry in ((12, False), (12, True), (2500, True))
+               for fr, ka in (((1.0 / 64, 0.1), (1.0 / 50, 0.1), (1.0 / 64, 0.5)) if tier == "quick" else ((1.0 / 64, 0.1), (1.0 / 60, 0.1), (1.0 / 50, 0.1), (1.0 / 64, 0.5), (1.0 / 64, 0.04), (1.0 / 30, 1.0)))]
+    for r in core.pmap("checks.c12", "traffic_work", tr_jobs):
+        fold(r[1])
     kc_jobs = [(ka0, ka1, fr, idle) for ka0, ka1 in ((3.0, 0.1), (1.0, 0.25), (0.1, 1.0), (0.5, 0.05)) for fr in (1.0 / 64, 1.0 / 50) for idle in (0.3, 1.3)]
     for r in core.pmap("checks.c12", "ka_change_work", kc_jobs):
         fold(r[1])
@@ -613,12 +662,12 @@ def run(tier, seed):
         fold(r[1])
     for (oracle, sig), (cnt, wit, msg) in sorted(acc.items()):
         rep.add_violation(core.Violation(oracle, sig, wit, "%s [%d cases]" % (msg[:400], cnt)))
-    n_exec = len(idle_jobs) + st.executions + len(cut_jobs) + len(con_jobs) + len(cs_jobs) + len(ss_jobs) + len(kc_jobs) + len(em_jobs) + len(kick_jobs)
+    n_exec = len(idle_jobs) + st.executions + len(cut_jobs) + len(con_jobs) + len(cs_jobs) + len(ss_jobs) + len(kc_jobs) + len(em_jobs) + len(kick_jobs) + len(tr_jobs)
     rep.coverage = {
         "states": idle_states + st.points, "transitions": idle_states + st.steps, "traces_validated_against_impl": n_exec,
         "idle_configurations": len(idle_jobs), "idle_closed_cycles": len(closed), "idle_cycle_rows": closed[:40], "idle_horizon_only": open_rows,
         "jitter_executions": st.executions, "cut_cases": len(cut_jobs), "cut_outcomes": len(cut_out), "connect_cases": len(con_jobs),
-        "client_setter_cases": len(cs_jobs), "server_setter_cases": len(ss_jobs), "keep_alive_change_cases": len(kc_jobs), "emission_under_missing_acks_cases": len(em_jobs),
+        "client_setter_cases": len(cs_jobs), "server_setter_cases": len(ss_jobs), "keep_alive_change_cases": len(kc_jobs), "emission_under_missing_acks_cases": len(em_jobs), "application_traffic_cases": len(tr_jobs),
         "evaluations": n_exec, "distinct_nontrivial": len(closed) + len(cut_out) + len(st.outcomes) + len(cs_jobs),
         "rule": "idle: canonical state = ages + sequence numbers relative to the peer's window, per tick; a repeated state closes the graph (dyadic frames), otherwise a horizon is reported; "
                 "jitter: all 2^10 sequences of 1x/2x frames; cut: every tick phase of one keep-alive period x {both, c2s, s2c}; setters: every subset x order x before / during-the-handshake / after split",
@@ -641,6 +690,8 @@ def replay(witness):
     elif part == "emission":
         a = witness["arg"]
         v = emission_work((a[0], a[1], a[2], a[3], a[4], tuple(a[5]) if a[5] else None))[1]
+    elif part == "traffic":
+        v = traffic_work(tuple(witness["arg"]))[1]
     elif part == "ka-change":
         v = ka_change_work(tuple(witness["arg"]))[1]
     elif part == "cut":
